@@ -25,7 +25,7 @@ def group_phases(phases: list[dict]) -> list[list[dict]]:
 
 
 def run_history(project: dict, phases: list[dict], *, world: World | None = None, keep_world=False,
-                commit_hooks=None, gate_hooks=None, report_hooks=None, log_state=True,
+                commit_hooks=None, gate_hooks=None, report_hooks=None, watch_hooks=None, log_state=True,
                 policy="random") -> dict:
     """Run a whole history.  Returns dict(events, runs=[per-lifetime summaries], world)."""
     own = world is None
@@ -40,6 +40,7 @@ def run_history(project: dict, phases: list[dict], *, world: World | None = None
                 apply_edit(world, project, edit)
             ctl = Controller(seed=int(first.get("seed", 0)), policy=first.get("policy", policy),
                              script=first.get("choices"))
+            ctl.delay = list(first.get("delay", []))
             watch = [{"edits": ph.get("edits", [])} for ph in group[1:]]
             res = run_serve(
                 world,
@@ -51,6 +52,7 @@ def run_history(project: dict, phases: list[dict], *, world: World | None = None
                 commit_hooks=commit_hooks,
                 gate_hooks=gate_hooks,
                 report_hooks=report_hooks,
+                watch_hooks=watch_hooks,
                 log_state=log_state,
                 fresh=bool(first.get("fresh", False)),
             )
@@ -67,6 +69,7 @@ def run_history(project: dict, phases: list[dict], *, world: World | None = None
                     "choices": res.choices,
                     "errors": res.errors,
                     "nphases": len(group),
+                    "watch_points": res.watch_points,
                 }
             )
             if res.exc or res.hang:
